@@ -322,6 +322,17 @@ func init() {
 				text, _ := wide[int(i)%len(wide)](widthCounts[int(i)/len(wide)])
 				return fmt.Sprintf("input with %d distinct names %q", widthCounts[int(i)/len(wide)], text)
 			}})
+			// change-directed: literals that are new in the working tree as extra letters
+			if na := newAtoms(5); len(na) > 0 {
+				ea := append(append([]string{}, na...), "a", "1", "(", ",", ")")
+				sp = append(sp, fw.Space{Name: "new-literals-expression", N: countStrings(len(ea), 5),
+					Run:  func(c *fw.Ctx, i int64) { c03Expr(c, strings.Join(lexemesByIndex(ea, i), "")) },
+					Repr: func(i int64) string { return fmt.Sprintf("expression %q (letters incl. literals new in the working tree: %q)", strings.Join(lexemesByIndex(ea, i), ""), na) }})
+				ta := append(append([]string{}, na...), "a", "{{", "}}", "#", "/")
+				sp = append(sp, fw.Space{Name: "new-literals-template", N: countStrings(len(ta), 5),
+					Run:  func(c *fw.Ctx, i int64) { c03Template(c, strings.Join(lexemesByIndex(ta, i), "")) },
+					Repr: func(i int64) string { return fmt.Sprintf("template %q (letters incl. literals new in the working tree: %q)", strings.Join(lexemesByIndex(ta, i), ""), na) }})
+			}
 			tokLens["generic+cpp"] = tokLens["csv"]
 			tokLens["csv+latin1"] = tokLens["csv"]
 			tokLens["csv+wide"] = tokLens["csv"]
